@@ -1,0 +1,36 @@
+//go:build verif
+
+package indexer
+
+// Contracts for the deductive checks in /verif (read by /verif/govc; comment-only, no code).
+
+//@ import query github.com/tendermint/tendermint/libs/pubsub/query
+
+//@ func IsRangeOperation
+//@   assigns nothing
+//@   ensures def: result <==> (op == query.OpGreater || op == query.OpGreaterEqual || op == query.OpLess || op == query.OpLessEqual)
+
+// The effective integer bounds of a range: exclusive bounds are turned into inclusive ones by adding / subtracting
+// one, which must not overflow.
+//@ func QueryRange.LowerBoundValue
+//@   assigns nothing
+//@   checks ovf
+//@   ensures incl: (qr.LowerBound != nil && typeis(qr.LowerBound, int64) && !qr.IncludeLowerBound) ==> (typeis(result, int64) && payload(result) == payload(qr.LowerBound) + 1)
+//@ func QueryRange.UpperBoundValue
+//@   assigns nothing
+//@   checks ovf
+//@   ensures incl: (qr.UpperBound != nil && typeis(qr.UpperBound, int64) && !qr.IncludeUpperBound) ==> (typeis(result, int64) && payload(result) == payload(qr.UpperBound) - 1)
+
+// holdsCond(op, operand, v): the integer value v satisfies the range condition `key op operand`.
+//@ spec func holdsCond(op int, operand int64, v int64) bool = (op == query.OpGreater ==> v > operand) && (op == query.OpGreaterEqual ==> v >= operand) && (op == query.OpLess ==> v < operand) && (op == query.OpLessEqual ==> v <= operand)
+// inRange(r, v): v lies within the recorded range r (integer bounds).
+//@ spec func inRange(lbTag int, lb int64, ubTag int, ub int64, inclL bool, inclU bool, v int64) bool =
+//@   | (lbTag == 0 || ite(inclL, v >= lb, v > lb)) && (ubTag == 0 || ite(inclU, v <= ub, v < ub))
+
+// For integer operands, the range recorded for a key admits exactly the values that satisfy EVERY range condition on
+// that key.
+//@ func LookForRanges
+//@   ensures exact: forall(i, 0, len(conditions), typeis(conditions[i].Operand, int64)) ==> forall(k, forall(v, has(ranges, k) ==>
+//@     | (inRange(tagof(ranges[k].LowerBound), payload(ranges[k].LowerBound), tagof(ranges[k].UpperBound), payload(ranges[k].UpperBound), ranges[k].IncludeLowerBound, ranges[k].IncludeUpperBound, v) <==>
+//@     |  forall(i, 0, len(conditions), (conditions[i].CompositeKey == k && (conditions[i].Op == query.OpGreater || conditions[i].Op == query.OpGreaterEqual || conditions[i].Op == query.OpLess || conditions[i].Op == query.OpLessEqual)) ==> holdsCond(conditions[i].Op, payload(conditions[i].Operand), v)))))
+//@   loop 1 invariant idx: 0 <= rangeindex + 1 && rangeindex + 1 <= len(conditions)
